@@ -57,18 +57,21 @@ Theorem C10_append_crash :
     let d' := with_log d (log_bytes d ++ firstn k (frame (enc r))) in
     (k < length (frame (enc r)) -> load_mem dec d' = load_mem dec d) /\
     (k = length (frame (enc r)) ->
-       load_mem dec d' = match apply_changes (base_of d) (concat rs ++ r) with
+       load_mem dec d' = match apply_log (base_of d) (concat rs ++ r) with
                          | inl s => (s, true) | inr e => (e, false) end).
 Proof. intros enc dec H H0. exact (append_crash enc dec H H0). Qed.
 Print Assumptions C10_append_crash.
 
 (** FULL statement (schema_survives_crash): for every history and every crash point, load =
-    the schema after the acknowledged prefix (modulo the in-flight operation).  REFUTED for
-    histories with a measurement drop (below).  Proved part: every crash point of WriteToFile
-    (tmp written / renamed or fields.idx removed / tmp removed / log removed), provided the log
-    holds only adds that the in-memory schema agrees with — which is what a log contains when no
-    measurement was dropped since the last snapshot (apply_self): before the rename the image
-    loads as before, from the rename on it loads to the in-memory schema. *)
+    the schema after the acknowledged prefix (modulo the in-flight operation).  Proved parts:
+    C10_append_crash above (any log, any record — also deletion records — torn anywhere) and,
+    here, every crash point of WriteToFile (tmp written / renamed or fields.idx removed / tmp
+    removed / log removed) for logs that hold only adds the in-memory schema agrees with
+    (apply_self): before the rename the image loads as before, from the rename on it loads to
+    the in-memory schema.  For logs WITH deletions the crash points of WriteToFile are covered
+    for the dropped measurements by C10_drop_stays_dropped below; that replaying such a log
+    over the newer snapshot never hits a conflict (ApplyChanges skips the changes older than
+    the last deletion of their measurement) is exercised by the driver, not proved. *)
 Theorem C10_schema_survives_crash_partial :
   forall enc dec, (forall r, dec (enc r) = Some r) ->
   forall mem d rs j, log_bytes d = frames enc rs -> Forall (small enc) rs ->
@@ -85,10 +88,22 @@ Theorem C10_loaded_schema_agrees_with_log :
 Proof. exact apply_self. Qed.
 Print Assumptions C10_loaded_schema_agrees_with_log.
 
-(** (5) drop_stays_dropped.  FULL statement: after an acknowledged DeleteMeasurement(m), every
-    later load has no field of m, for every restart.  Proved part: once a WriteToFile has
-    completed after the drop (clean Close), the files load to exactly the in-memory schema. *)
-Theorem C10_drop_stays_dropped_clean_partial :
+(** (5) drop_stays_dropped, FULL statement at the level of the files: if the change log's last
+    word on measurement m is a deletion, then WHATEVER fields.idx holds — the snapshot from
+    before the log (crash before WriteToFile's rename) or the snapshot written from memory
+    after it (crash between the rename and the removal of the log: the ORDER question) — a
+    successful load has no field of m; and once WriteToFile has completed, the files hold
+    exactly the in-memory schema, which has no field of m.  Together with C10_append_crash
+    (the deletion record is in the log once its append is acknowledged, and a torn later
+    record changes nothing) this covers every crash point after an acknowledged drop. *)
+Theorem C10_drop_stays_dropped :
+  forall enc dec, (forall r, dec (enc r) = Some r) ->
+  forall d rs m f s, log_bytes d = frames enc rs -> Forall (small enc) rs ->
+    ends_dropped m (concat rs) = true -> load_mem dec d = (s, true) -> ftype s m f = None.
+Proof. intros enc dec H. exact (drop_stays_dropped_any_snapshot enc dec H). Qed.
+Print Assumptions C10_drop_stays_dropped.
+
+Theorem C10_drop_stays_dropped_after_snapshot :
   forall dec mem d m f,
     exists s, load_mem dec (run (prog_write_to_file (drop_meas mem m)) d) = (s, true) /\
               ftype s m f = None.
@@ -96,22 +111,29 @@ Proof.
   intros dec mem d m f. destruct (write_to_file_complete dec (drop_meas mem m) d) as [s [H1 H2]].
   exists s. split; [exact H1|]. rewrite H2. apply ftype_drop_same.
 Qed.
-Print Assumptions C10_drop_stays_dropped_clean_partial.
+Print Assumptions C10_drop_stays_dropped_after_snapshot.
 
-(** REFUTED in general (the faithful model, with the real protobuf encoding): write m0 a=float,
-    DeleteMeasurement m0 (in memory the field is gone), unclean restart: the field is back.
-    Confirmed on the real code (findings.d/C10.json, signature drop-not-logged). *)
+(** Former finding drop-not-logged (marshalFieldChanges never wrote deletion records),
+    repaired: the former counterexample is a positive example — write m0 a=float,
+    DeleteMeasurement m0, unclean restart: the field stays gone; re-created with another type
+    and crashed again: the new type is loaded, without a load error. *)
 Definition m0 : name := [109; 48]%N.
 Definition fa : name := [97]%N.
 Definition wit_write : list wpoint :=
   [{| w_meas := m0; w_series := 0; w_time := 0; w_fields := [{| f_key := fa; f_type := 1; f_big := false; f_val := 0 |}] |}]%N.
-Theorem C10_drop_stays_dropped_refuted :
-  exists y, let y1 := fst (fst (do_write y wit_write)) in
-            let y2 := do_drop y1 m0 in
-            ftype (y_mem y1) m0 fa = Some 1%N /\ ftype (y_mem y2) m0 fa = None /\
-            ftype (y_mem (do_crash y2)) m0 fa = Some 1%N.
-Proof. exists sys0. vm_compute. repeat split. Qed.
-Print Assumptions C10_drop_stays_dropped_refuted.
+Definition wit_write2 : list wpoint :=
+  [{| w_meas := m0; w_series := 0; w_time := 0; w_fields := [{| f_key := fa; f_type := 2; f_big := false; f_val := 0 |}] |}]%N.
+Example C10_drop_survives_unclean_restart :
+  let y1 := fst (fst (do_write sys0 wit_write)) in
+  let y2 := do_drop y1 m0 in
+  let y3 := do_crash y2 in
+  let y4 := fst (fst (do_write y3 wit_write2)) in
+  ftype (y_mem y1) m0 fa = Some 1%N /\ ftype (y_mem y2) m0 fa = None /\
+  ftype (y_mem y3) m0 fa = None /\
+  load_mem pb_dec (y_disk y2) = ([], true) /\
+  ftype (y_mem (do_crash y4)) m0 fa = Some 2%N /\
+  snd (load_mem pb_dec (y_disk (fst (fst (do_write (do_drop y1 m0) wit_write2))))) = true.
+Proof. vm_compute. repeat split. Qed.
 
 (** (6) Racing creators of one new field: LoadOrStore is one atomic step per writer; for EVERY
     schedule (permutation of the writers' steps) one of the written types wins, the writers of
